@@ -208,7 +208,7 @@ func (cfg *Config) paramExp(pe *syntax.ParamExp) (string, error) {
 		}
 		str = join(elems)
 	case pe.Exp != nil:
-		arg, err := Literal(cfg, pe.Exp.Word)
+		arg, err := cfg.expansionArg(pe.Exp)
 		if err != nil {
 			return "", err
 		}
@@ -317,6 +317,20 @@ func (cfg *Config) paramExp(pe *syntax.ParamExp) (string, error) {
 	return str, nil
 }
 
+// expansionArg expands the word of a ${var<op>word} expansion. The removal and
+// case operators take a pattern, where quoted parts must match literally,
+// such as ${var#"*"}; the word is a literal string for any other operator.
+func (cfg *Config) expansionArg(exp *syntax.Expansion) (string, error) {
+	switch exp.Op {
+	case syntax.RemSmallPrefix, syntax.RemLargePrefix,
+		syntax.RemSmallSuffix, syntax.RemLargeSuffix,
+		syntax.UpperFirst, syntax.UpperAll,
+		syntax.LowerFirst, syntax.LowerAll:
+		return Pattern(cfg, exp.Word)
+	}
+	return Literal(cfg, exp.Word)
+}
+
 func removePattern(str, pat string, fromEnd, shortest bool) string {
 	var mode pattern.Mode
 	if shortest {
@@ -356,7 +370,7 @@ func (cfg *Config) perElemOps(pe *syntax.ParamExp, elems []string) ([]string, er
 	case pe.Repl != nil:
 		return cfg.replaceElems(pe.Repl, elems)
 	case pe.Exp != nil:
-		arg, err := Literal(cfg, pe.Exp.Word)
+		arg, err := cfg.expansionArg(pe.Exp)
 		if err != nil {
 			return nil, err
 		}
